@@ -181,6 +181,8 @@ M = [
     ('C02', 'PGPKey.revoker', 'pgpy.pgp', "        prefs['revocable'] = False\n        return self._sign(self, sig, **prefs)", "        return self._sign(self, sig, **prefs)"),
     ('C02', 'PGPKey.revoker', 'pgpy.pgp', "                                         algorithm=revoker.key_algorithm,\n                                         fingerprint=revoker.fingerprint,", "                                         algorithm=self.key_algorithm,\n                                         fingerprint=revoker.fingerprint,"),
     ('C02', 'PGPKey.revoker[sens', 'pgpy.pgp', "        keyclass = RevocationKeyClass.Normal | (RevocationKeyClass.Sensitive if sensitive else 0x00)", "        keyclass = RevocationKeyClass.Normal"),
+    ('C10', 'from_blob', 'pgpy.types', "            po = obj.parse(bytearray(blob, 'latin-1'))", "            po = obj.parse(bytearray(blob, 'utf-8'))"),
+    ('C10', 'from_blob', 'pgpy.types', "        if po is not None:\n            return (obj, po)\n\n        return obj  # pragma: no cover\n\n    def __init__", "        return (obj, po)\n\n    def __init__"),
     ('C04', 'SKEData.decrypt', 'pgpy.packet.packets', "        iv_resync = bytes(self.ct[2:block_size_bytes + 2])", "        iv_resync = bytes(self.ct[0:block_size_bytes])"),
     ('C04', 'SKEData.decrypt', 'pgpy.packet.packets', "        if not constant_time.bytes_eq(iv[-2:], ivl2):\n            raise PGPDecryptionError(\"Decryption failed\")\n\n        pt = _decrypt(bytes(self.ct[block_size_bytes + 2:])", "        pt = _decrypt(bytes(self.ct[block_size_bytes + 2:])"),
     ('C14', 'PGPSignature.exportable', 'pgpy.pgp', "            return bool(next(iter(self._signature.subpackets['ExportableCertification'])))\n\n        return True", "            return bool(next(iter(self._signature.subpackets['ExportableCertification'])))\n\n        return 'RevocationKey' not in self._signature.subpackets"),
